@@ -125,6 +125,10 @@ static void do_buf(char **ops, int nops)
             ArgBuf a = mkarg(f[1]);
             printf("%c", wbxml_buffer_insert(b, a.b, (WB_ULONG)strtoul(f[2], NULL, 10)) ? 'T' : 'F'); rmarg(a);
         }
+        else if (!strcmp(o, "insself") && nf == 2)   /* the buffer inserted into itself */
+            printf("%c", wbxml_buffer_insert(b, b, (WB_ULONG)strtoul(f[1], NULL, 10)) ? 'T' : 'F');
+        else if (!strcmp(o, "appself"))              /* the buffer appended to itself */
+            printf("%c", wbxml_buffer_append(b, b) ? 'T' : 'F');
         else if (!strcmp(o, "insc") && nf == 3) {
             unsigned char *s = mkstr(f[1], &n);
             printf("%c", wbxml_buffer_insert_cstr(b, s, (WB_ULONG)strtoul(f[2], NULL, 10)) ? 'T' : 'F'); free(s);
